@@ -1202,8 +1202,7 @@ begin_array:
             return result_type(jsoncons::unexpect, ec, cursor.line(), cursor.column());
         }
     }
-    
-    JSONCONS_UNREACHABLE();
+    return result_type(std::move(cont));
 }
 
 template <typename Json, typename Alloc, typename TempAlloc>
